@@ -286,7 +286,7 @@ Lemma load_own_tokens dn t BD ps :
   Forall (fun d => In d blks) BD -> parts_in (List.concat BD) ps -> ps <> [] ->
   Forall (fun p => valid_name (fp_name p)) ps ->
   exists n, 0 < n /\
-  t_load_tokens tab dn ((match map (loc_text tab) BD with [] => [empty_block_loc] | bl => bl end) ++ map part_text ps) t [] false 0 0 =
+  t_load_tokens tab dn ((match map (loc_text tab) BD with [] => [empty_block_loc] | _ => map (loc_text tab) BD end) ++ map part_text ps) t [] false 0 0 =
   match tins_parts t dn (map (chunk (List.concat BD)) ps) with
   | Some t' => Some (t', true, n)
   | None => None
